@@ -481,3 +481,82 @@ Lemma without_room_64_fatal : handed_over_conn_survives false 64 = false /\ hand
   handed_over_conn_survives false 63 = true /\ handed_over_conn_survives false 65 = true.
 Proof. vm_compute. repeat split; reflexivity. Qed.
 Close Scope N_scope.
+
+(* ------------------------------------------------------------------ a server = a list of listeners: none is skipped *)
+Lemma hits_seq s n i : hits (seq s n) i = if andb (s <=? i) (i <? s + n) then 1 else 0.
+Proof.
+  unfold hits. revert s; induction n as [|n IH]; intros s.
+  - cbn [seq count_occ].
+    destruct (Nat.leb_spec s i) as [H1|H1]; destruct (Nat.ltb_spec i (s + 0)) as [H2|H2]; cbn [andb]; try reflexivity; lia.
+  - cbn [seq count_occ]. rewrite IH.
+    destruct (Nat.eq_dec s i) as [He|He];
+      destruct (Nat.leb_spec (S s) i) as [H1|H1]; destruct (Nat.ltb_spec i (S s + n)) as [H2|H2];
+      destruct (Nat.leb_spec s i) as [H3|H3]; destruct (Nat.ltb_spec i (s + S n)) as [H4|H4];
+      cbn [andb]; try reflexivity; lia.
+Qed.
+
+Lemma hits_all n i : i < n -> hits (shutdown_targets true n) i = 1.
+Proof.
+  intros H. unfold shutdown_targets. rewrite hits_seq.
+  destruct (Nat.leb_spec 0 i) as [H1|H1]; destruct (Nat.ltb_spec i (0 + n)) as [H2|H2]; cbn [andb]; try reflexivity; lia.
+Qed.
+
+Lemma mapi_from_nth {A B} (f : nat -> A -> B) : forall l k i x,
+  nth_error l i = Some x -> nth_error (mapi_from f k l) i = Some (f (k + i) x).
+Proof.
+  induction l as [|y l IH]; intros k i x H; [destruct i; discriminate|].
+  destruct i as [|i]; cbn in *.
+  - injection H as <-. rewrite Nat.add_0_r. reflexivity.
+  - rewrite (IH (S k) i x H). f_equal. f_equal. lia.
+Qed.
+
+(* graceful stop of the SERVER: every listener of the list is shut down - refuses connects and has called OnShutdown for its
+   connections (go-away + drain) exactly once more *)
+Theorem no_listener_skipped ls i l :
+  nth_error ls i = Some l -> l_wf l -> l_bind l = true ->
+  exists l', nth_error (srv_shutdown true ls) i = Some l' /\ l' = l_shutdown false l /\
+             l_connect l' = CRefused /\ l_drains l' = S (l_drains l).
+Proof.
+  intros Hn Hw Hb. exists (l_shutdown false l).
+  assert (Hi : i < length ls) by (apply nth_error_Some; congruence).
+  split.
+  - unfold srv_shutdown. rewrite (mapi_from_nth _ ls 0 i l Hn). cbn [Nat.add].
+    rewrite (hits_all (length ls) i Hi). reflexivity.
+  - split; [reflexivity|]. split.
+    + destruct (refused_during_and_after_drain l [] Hw Hb eq_refl) as [_ H]. exact H.
+    + destruct l as [bd st so lp fd dr]. cbn in Hb. subst. unfold l_shutdown, l_close, l_drain, with_state; cbn.
+      destruct st; reflexivity.
+Qed.
+
+Lemma srv_return_ge tg pt max : forall rss k t i rs e,
+  srv_return_from tg rss pt max k = Some t ->
+  nth_error rss i = Some rs -> 0 < hits tg (k + i) -> drain_exit rs pt max = Some e -> pt e <= t.
+Proof.
+  induction rss as [|rs0 rest IH]; intros k t i rs e H Hn Hh He; [destruct i; discriminate|].
+  cbn [srv_return_from] in H.
+  destruct (srv_return_from tg rest pt max (S k)) as [t'|] eqn:Er; [|discriminate].
+  destruct i as [|i]; cbn in Hn.
+  - injection Hn as ->. rewrite Nat.add_0_r in Hh.
+    destruct (0 <? hits tg k) eqn:E; [|apply Nat.ltb_ge in E; lia].
+    rewrite He in H. injection H as <-. lia.
+  - assert (Hle : pt e <= t').
+    { apply (IH (S k) t' i rs e Er Hn); [|exact He]. replace (S k + i) with (k + S i) by lia. exact Hh. }
+    destruct (0 <? hits tg k); [|injection H as <-; exact Hle].
+    destruct (drain_exit rs0 pt max); [|discriminate]. injection H as <-. lia.
+Qed.
+
+(* ... and GracefulStopListeners returns only after the in-flight requests of EVERY listener *)
+Theorem inflight_complete_all_listeners rss pt max i rs r t :
+  increasing pt -> nth_error rss i = Some rs -> In r rs ->
+  r_active r (pt 0) = true -> r_done r - pt 0 <= max ->
+  srv_return true rss pt max = Some t ->
+  r_done r <= t.
+Proof.
+  intros Hi Hn Hin Ha Hrem Ht.
+  destruct (drain_exit rs pt max) as [e|] eqn:He; [|exfalso; exact (drain_exit_total rs pt max Hi He)].
+  pose proof (inflight_complete rs pt max r e Hi Hin Ha Hrem He) as Hd.
+  assert (Hlt : i < length rss) by (apply nth_error_Some; congruence).
+  unfold srv_return in Ht.
+  pose proof (srv_return_ge _ pt max rss 0 t i rs e Ht Hn) as H. cbn [Nat.add] in H.
+  rewrite (hits_all (length rss) i Hlt) in H. specialize (H ltac:(lia) He). lia.
+Qed.
